@@ -560,7 +560,7 @@ func runTransfer(t *testing.T, ksc KScenario, res *KResult) {
 		if sp := sc.Streams[i]; sp.Uni && sp.AbortAt > 0 {
 			// RESET_STREAM_AT is in use when both endpoints enabled it (a spec-driven client advertises what its spec says)
 			states[i].abortAt = sp.AbortAt
-			states[i].reliable = sp.Reliable && sc.Cfg.ResetPartial == [2]bool{true, true} && (sc.Cfg.Client == "plain" || sc.Cfg.Client == "")
+			states[i].reliable = sp.Reliable && sc.Cfg.ResetPartial == [2]bool{true, true} && (sc.Cfg.Client == "plain" || sc.Cfg.Client == "" || sc.Cfg.Client == "unil")
 		}
 	}
 	var idMu sync.Mutex
